@@ -24,6 +24,7 @@ import (
 
 // structEncoder is the implementation of ValueEncoder for named struct/*struct.
 type structEncoder struct {
+	sync.RWMutex
 	fields   []FieldAccessor
 	metadata []byte
 }
@@ -33,7 +34,12 @@ func (valenc *structEncoder) Encode(enc *Encoder, v interface{}) {
 }
 
 func (valenc *structEncoder) Write(enc *Encoder, v interface{}) {
+	// the encoder is published before its fields are known (a struct may refer to
+	// itself): wait until newNamedStructEncoder has finished building it
+	valenc.RLock()
 	fields := valenc.fields
+	metadata := valenc.metadata
+	valenc.RUnlock()
 	n := len(fields)
 	t := reflect.TypeOf(v)
 	st := t
@@ -44,7 +50,7 @@ func (valenc *structEncoder) Write(enc *Encoder, v interface{}) {
 	}
 	var r = enc.WriteStructType(st, func() {
 		enc.AddReferenceCount(n)
-		enc.buf = append(enc.buf, valenc.metadata...)
+		enc.buf = append(enc.buf, metadata...)
 	})
 	enc.SetReference(v)
 	p := reflect2.PtrOf(v)
@@ -84,6 +90,8 @@ func getNamedStructEncoder(t reflect.Type) ValueEncoder {
 
 func newNamedStructEncoder(t reflect.Type, name string, tag ...string) *structEncoder {
 	encoder := &structEncoder{}
+	encoder.Lock()
+	defer encoder.Unlock()
 	registerNamedStructEncoder(t, encoder)
 	fields := getFields(t, tag...)
 	n := len(fields)
